@@ -322,6 +322,31 @@ def runTools (cfg : Config) (m : Msg) : List ToolCall × Except Err (List Msg) :
   | none => ([], .error .toolNotFound)
   | some tasks => (m.calls, collectResults tasks)
 
+/-! ### tools that stream their result lazily and honour their context
+
+A `StreamableTool` may hand back a stream whose chunks are produced only when they are read —
+after `ToolsNode.Stream` has returned — by a producer that looks at the context it was called
+with before every chunk. What the reader gets then depends on whether that context is still
+alive, i.e. on whether the tools node called the tool with the caller's context or with a derived
+one that it ended itself (`ended`; source fact `toolCallCtxNotScoped` = not scoped). -/
+
+/-- what a lazy producer does when it finds its context done -/
+inductive LazyMode where
+  | stop | err
+  deriving DecidableEq, Repr
+
+/-- the tool result the reader assembles from a lazily produced stream of `chunks`. With the
+    caller's context (`ended = false`) all of it. Were the context ended when the tools node
+    returns (`ended = true`) — which only concerns messages with several calls (`siblings`), a
+    single call is run on the caller's context directly — the producer stops at its next look at
+    the context: silently (at most the chunk already under way arrives) or with the error. -/
+def lazyRead (ended siblings : Bool) (mode : LazyMode) (chunks : List String) : Except Err String :=
+  if ended && siblings then
+    match mode with
+    | .stop => .ok (String.join (chunks.take 1))
+    | .err => .error (.toolFailed 0)
+  else .ok (String.join chunks)
+
 /-- values flowing along the edges -/
 inductive Val where
   | msgs (l : List Msg)        -- `[]*schema.Message` (graph input, tools output)
